@@ -25,6 +25,7 @@ import (
 	"fmt"
 	"math"
 	"reflect"
+	"regexp"
 	"sort"
 	"strconv"
 	"strings"
@@ -49,9 +50,13 @@ func verifC08Parse(s string) string {
 	return verifC08ValOrE(int64(v), err)
 }
 
-// text after the days prefix, found with the REAL regular expression of duration.go
+// the days-prefix pattern of duration.go, compiled here (not taken from the package variable) so that the harness
+// keeps building when the decoder is restructured; the model's own `daysPrefix` must agree with it on every op
+var verifC08ReDays = regexp.MustCompile("^(-?[0-9]+)d")
+
+// text after the days prefix
 func verifC08Rest(text string) string {
-	if m := reDays.FindStringSubmatch(text); m != nil {
+	if m := verifC08ReDays.FindStringSubmatch(text); m != nil {
 		return text[len(m[0]):]
 	}
 	return text
@@ -226,6 +231,9 @@ func (g *verifC08Filler) int64() int64 {
 	case 1:
 		return int64(r.U64())
 	case 2:
+		if r.Bool() { // sub-millisecond remainders (printed with the µs / ns units), alone or after whole days
+			return int64(r.Intn(4))*verifC08Day + int64(r.Intn(1000000))
+		}
 		return int64(r.Intn(1000)) * int64(time.Millisecond)
 	case 3:
 		return -int64(r.U64() >> uint(1+r.Intn(62)))
@@ -634,7 +642,8 @@ func verifC08Gen(r *verifutil.Rand, i int, thorough bool) []string {
 		return []string{verifC08UdurOp(verifC08HostileDur[i])}
 	}
 	boundaries := []int64{0, 1, -1, math.MaxInt64, math.MinInt64, math.MinInt64 + 1, verifC08Day, -verifC08Day, verifC08Day - 1, -verifC08Day + 1,
-		verifC08Day + 1, 2 * verifC08Day, 106751 * verifC08Day, 106751*verifC08Day + 1, -106751 * verifC08Day, 1e9, -1e9, 1500e6, 90 * 60e9, 999, 1000, 1001, 1e6 - 1}
+		verifC08Day + 1, 2 * verifC08Day, 1e3, 500e3, 999e3, verifC08Day + 250e3, -verifC08Day - 250e3, 1500e3, 1, 17, 999999, -500e3, 1e6 + 1e3,
+		3*verifC08Day + 1, 106751 * verifC08Day, 106751*verifC08Day + 1, -106751 * verifC08Day, 1e9, -1e9, 1500e6, 90 * 60e9, 999, 1000, 1001, 1e6 - 1}
 	j := i - len(verifC08HostileDur)
 	if j < len(boundaries) {
 		return []string{verifC08DurOp(boundaries[j])}
